@@ -267,6 +267,14 @@ func (p proxyHandler) handleRequest(rw http.ResponseWriter, req *http.Request) {
 
 	defer res.Body.Close()
 
+	// http.ResponseWriter panics on a status code below 100, the transport accepts any three digits.
+	if res.StatusCode < 100 {
+		err := fmt.Errorf("invalid status code %03d in response", res.StatusCode)
+		log.Error(ctx, "failed to round trip", "host", req.Host, "method", req.Method, "path", req.URL.Path, "error", err)
+		p.writeErrorResponse(rw, req, err)
+		return
+	}
+
 	// set request to original request manually, res.Request may be changed in transport.
 	// see https://github.com/google/martian/issues/298
 	res.Request = req
